@@ -9,7 +9,11 @@ wt = f"/tmp/mut/{pid}{tag}/repo"
 out = f"/tmp/mut/{pid}{tag}/out"
 os.makedirs(out, exist_ok=True)
 if not os.path.exists(wt):
-    subprocess.run(["git", "-C", "/repo", "worktree", "add", "--detach", wt, "9101728"], check=True, capture_output=True)
+    # worktree of the current /repo HEAD (so that patches apply to it), with the cfg-guarded verification adapters
+    # removed in a scratch commit: the agent must not see what the checks drive
+    subprocess.run(["git", "-C", "/repo", "worktree", "add", "--detach", wt, "HEAD"], check=True, capture_output=True)
+    subprocess.run(["git", "-C", wt, "rm", "-rq", "src/verif"], check=True, capture_output=True)
+    subprocess.run(["git", "-C", wt, "commit", "-qm", "scratch: without src/verif"], check=True, capture_output=True)
 text = open(os.path.join(root, "tools", "mutation_prompt.md")).read()
 print(text)
 print(f"\nProperty {pid}: {prop['title']}\n\nStatement: {prop['statement']}\n\nQuantified over: {prop['quantifier']['text']}\n\n"
